@@ -1073,3 +1073,365 @@ Proof.
     fold (mem c (regs s)) in Hm. rewrite Hm. exact Hr.
   - rewrite Hch. destruct o; simpl in *; try exact Hrep. destruct Hrep as (_&_&H). exact H.
 Qed.
+
+(* ------------------------------------------------------------------ refcounters vs multisets *)
+Fixpoint cnt (v : N) (m : mset) : N :=
+  match m with [] => 0 | x :: r => (if x =? v then 1 else 0) + cnt v r end.
+Fixpoint rc_cnt (v : N) (r : refc) : N :=
+  match r with [] => 0 | (k, n) :: r' => (if k =? v then n else 0) + rc_cnt v r' end.
+
+Definition rc_pos (r : refc) : Prop := Forall (fun it => 0 < snd it) r.
+Definition rc_rel (r : refc) (m : mset) : Prop := rc_pos r /\ forall v, rc_cnt v r = cnt v m.
+
+Lemma ms_mem_cnt : forall v m, ms_mem v m = true <-> 0 < cnt v m.
+Proof.
+  induction m as [|x m IH]; simpl.
+  - split; [discriminate | lia].
+  - rewrite orb_true_iff, IH. rewrite (N.eqb_sym v x). destruct (x =? v).
+    + split; intro H; [lia | left; reflexivity].
+    + split; intro H; [destruct H as [H|H]; [discriminate | lia] | right; lia].
+Qed.
+
+Lemma rc_present_cnt : forall v r, rc_pos r -> (rc_present v r = true <-> 0 < rc_cnt v r).
+Proof.
+  induction r as [|[k n] r IH]; intro Hp; simpl.
+  - split; [discriminate | lia].
+  - inversion Hp as [|? ? Hk Hr]; subst. simpl in Hk. unfold rc_present in *. simpl.
+    rewrite orb_true_iff, (IH Hr). destruct (k =? v).
+    + split; intro H; [lia | left; reflexivity].
+    + split; intro H; [destruct H as [H|H]; [discriminate | lia] | right; lia].
+Qed.
+
+Lemma rc_present_mem : forall r m v, rc_rel r m -> rc_present v r = ms_mem v m.
+Proof.
+  intros r m v [Hp Hc]. apply eq_true_iff_eq. rewrite rc_present_cnt by exact Hp. rewrite ms_mem_cnt, Hc. reflexivity.
+Qed.
+
+Lemma rc_add_rel : forall a r m, rc_rel r m -> rc_rel (rc_add a r) (a :: m).
+Proof.
+  intros a r m [Hp Hc]. split.
+  - clear Hc. induction r as [|[k n] r IH]; simpl.
+    + constructor; [simpl; lia | constructor].
+    + inversion Hp as [|? ? Hk Hr]; subst. destruct (k =? a); constructor; simpl in *; try lia; auto.
+      apply IH, Hr.
+  - intro v. simpl. rewrite <- Hc. clear Hc Hp. induction r as [|[k n] r IH]; simpl.
+    + lia.
+    + destruct (k =? a) eqn:E; simpl.
+      * apply N.eqb_eq in E. subst k. destruct (a =? v); lia.
+      * rewrite IH. lia.
+Qed.
+
+Lemma rc_remove_rel : forall a r m, rc_rel r m -> rc_rel (rc_remove a r) (ms_remove a m).
+Proof.
+  intros a r m [Hp Hc]. split.
+  - clear Hc. induction r as [|[k n] r IH]; simpl; [constructor|].
+    inversion Hp as [|? ? Hk Hr]; subst. simpl in Hk. destruct (k =? a).
+    + destruct (n - 1 =? 0) eqn:E; [exact Hr|]. apply N.eqb_neq in E. constructor; [simpl; lia | exact Hr].
+    + constructor; [exact Hk | apply IH, Hr].
+  - intro v.
+    assert (H1 : rc_cnt v (rc_remove a r) = rc_cnt v r - (if a =? v then 1 else 0)).
+    { clear Hc. induction r as [|[k n] r IH]; simpl; [destruct (a =? v); reflexivity|].
+      inversion Hp as [|? ? Hk Hr]; subst. simpl in Hk. destruct (k =? a) eqn:E.
+      - apply N.eqb_eq in E. subst k. destruct (n - 1 =? 0) eqn:E2.
+        + apply N.eqb_eq in E2. destruct (a =? v); lia.
+        + simpl. destruct (a =? v); lia.
+      - simpl. rewrite (IH Hr). destruct (k =? v) eqn:E3; [|reflexivity].
+        apply N.eqb_eq in E3. subst k. rewrite (N.eqb_sym a v), E. lia. }
+    assert (H2 : cnt v (ms_remove a m) = cnt v m - (if a =? v then 1 else 0)).
+    { clear. induction m as [|x m IH]; simpl; [destruct (a =? v); reflexivity|].
+      destruct (x =? a) eqn:E.
+      - apply N.eqb_eq in E. subst x. destruct (a =? v); lia.
+      - simpl. rewrite IH. destruct (x =? v) eqn:E3; [|reflexivity].
+        apply N.eqb_eq in E3. subst x. rewrite (N.eqb_sym a v), E. lia. }
+    rewrite H1, H2, Hc. reflexivity.
+Qed.
+
+Lemma rc_rel_nil : rc_rel [] [].
+Proof. split; [constructor | reflexivity]. Qed.
+
+(* ------------------------------------------------------------------ validatePath = the five clauses *)
+Definition lp_default (a : sattrs) (q : path) : path :=
+  if negb (ibgp a) && (lpref q =? 0) then set_lpref q (deflp a) else q.
+
+Lemma existsb_ext' : forall {A} (f g : A -> bool) l, (forall x, f x = g x) -> existsb f l = existsb g l.
+Proof. intros A f g l H. induction l as [|a l IH]; simpl; [reflexivity | rewrite H, IH; reflexivity]. Qed.
+
+Lemma validate_spec : forall a r1 r2 las lcs q, rc_rel r1 las -> rc_rel r2 lcs ->
+  (fst (validate a r1 r2 q) =? 0) = negb (ineligible a las lcs q) /\
+  (ineligible a las lcs q = false -> set_hid (lp_default a (snd (validate a r1 r2 q))) 0 = normalize a q).
+Proof.
+  intros a r1 r2 las lcs q H1 H2.
+  assert (E1 : existsb (fun x => rc_present x r1) (aspath q) = own_asn_in_path las q).
+  { unfold own_asn_in_path. apply existsb_ext'. intro x. apply rc_present_mem, H1. }
+  assert (E2 : existsb (fun x => rc_present x r2) (clist q) = own_cluster_in_list lcs q).
+  { unfold own_cluster_in_list. apply existsb_ext'. intro x. apply rc_present_mem, H2. }
+  unfold validate, ineligible. rewrite E1, E2.
+  unfold own_originator, empty_aspath_on_ebgp, otc_check_fails, normalize, roles_negotiated, validate_otc, lp_default.
+  destruct (negb (ibgp a) && is_nil (aspath q)) eqn:B1; simpl.
+  { rewrite !orb_true_r. simpl. split; [reflexivity | discriminate]. }
+  destruct (own_asn_in_path las q) eqn:B2; simpl; [split; [reflexivity | discriminate]|].
+  destruct (origid q =? rid a) eqn:B3; simpl; [split; [reflexivity | discriminate]|].
+  destruct (own_cluster_in_list lcs q) eqn:B4; simpl; [split; [reflexivity | discriminate]|].
+  destruct (role_on a), (role_adv a); simpl; try (split; [reflexivity | intros _; reflexivity]).
+  destruct (otc q =? 0) eqn:B5; simpl.
+  - destruct (role_remote a =? 0), (role_remote a =? 4), (role_remote a =? 1); simpl;
+      (split; [rewrite ?orb_false_r; reflexivity | intros _; reflexivity]).
+  - rewrite !orb_false_r.
+    destruct (role_remote a =? 3), (role_remote a =? 2), (role_remote a =? 4), (otc q =? peer_asn a); simpl;
+      (split; [reflexivity | try discriminate; intros _; reflexivity]).
+Qed.
+
+(* ------------------------------------------------------------------ the model's table = the spec's current announcements *)
+Definition entry_rel (e : pfx * path) (a : ann) : Prop :=
+  fst e = a_pfx a /\ (hid (snd e) =? 0) = a_ok a /\ pid (snd e) = pid (a_path a) /\
+  (a_ok a = true -> snd e = a_path a).
+
+Record Sim (a0 : sattrs) (s : st) (sp : sstate) : Prop := mkSim {
+  sim_sa : sa s = a0;
+  sim_tab : Forall2 entry_rel (tab s) (s_anns sp);
+  sim_as : rc_rel (asns s) (s_las sp);
+  sim_cs : rc_rel (cids s) (s_lcs sp)
+}.
+
+Lemma Forall2_filter : forall {A B} (R : A -> B -> Prop) (f : A -> bool) (g : B -> bool) l l',
+  (forall x y, R x y -> f x = g y) -> Forall2 R l l' -> Forall2 R (filter f l) (filter g l').
+Proof.
+  intros A B R f g l l' H HF. induction HF as [|x y l l' Hxy HF IH]; simpl; [constructor|].
+  rewrite (H x y Hxy). destruct (g y); [constructor; assumption | exact IH].
+Qed.
+
+Lemma normalize_pid : forall a q, pid (normalize a q) = pid q.
+Proof.
+  intros. unfold normalize. cbv zeta.
+  destruct (roles_negotiated a && (otc q =? 0) && _); destruct (negb (ibgp a) && _); reflexivity.
+Qed.
+
+Lemma stored_form_eligible : forall s q,
+  fst (validate (sa s) (asns s) (cids s) q) =? 0 = true ->
+  stored_form s q = set_hid (lp_default (sa s) (snd (validate (sa s) (asns s) (cids s) q))) 0.
+Proof.
+  intros s q H. unfold stored_form, lp_default. cbv zeta. rewrite H. apply N.eqb_eq in H. rewrite H. reflexivity.
+Qed.
+
+Lemma sel_same_slot : forall ap p i e a, entry_rel e a -> sel ap p i e = same_slot ap p i a.
+Proof. intros ap p i e a (H1&_&H3&_). unfold sel, same_slot. rewrite H1, H3. reflexivity. Qed.
+
+Lemma Sim_step : forall a0 o s sp, Base s -> Sim a0 s sp -> Sim a0 (step s o) (spec_step a0 sp o).
+Proof.
+  intros a0 o s sp HB [Hsa Htab Has Hcs].
+  destruct (step_base o s HB) as (_&E1&E2&E3&E4&_&_).
+  constructor.
+  - congruence.
+  - rewrite E2. destruct o; simpl; try exact Htab; unfold apx; rewrite ?Hsa.
+    + apply Forall2_app.
+      * apply Forall2_filter; [|exact Htab]. intros x y Hxy. f_equal. apply sel_same_slot, Hxy.
+      * constructor; [|constructor].
+        destruct (validate_spec a0 (asns s) (cids s) (s_las sp) (s_lcs sp) q Has Hcs) as [V1 V2].
+        unfold entry_rel. cbn [fst snd a_pfx a_path a_ok]. rewrite stored_form_hid, stored_form_pid, Hsa. repeat split.
+        -- exact V1.
+        -- destruct (negb (ineligible a0 (s_las sp) (s_lcs sp) q)); [rewrite normalize_pid|]; reflexivity.
+        -- intro Hok. rewrite Hok. rewrite stored_form_eligible by (rewrite Hsa, V1; exact Hok).
+           rewrite Hsa. apply V2. apply negb_true_iff, Hok.
+    + apply Forall2_filter; [|exact Htab]. intros x y Hxy. f_equal. apply sel_same_slot, Hxy.
+    + apply Forall2_filter; [|exact Htab]. intros x y (H1&_). cbv beta. f_equal. f_equal. exact H1.
+    + constructor.
+  - rewrite E3. destruct o; simpl; try exact Has; [apply rc_add_rel | apply rc_remove_rel]; exact Has.
+  - rewrite E4. destruct o; simpl; try exact Hcs; [apply rc_add_rel | apply rc_remove_rel]; exact Hcs.
+Qed.
+
+Lemma contrib_contribution : forall ch t anns, Forall2 entry_rel t anns -> contrib ch t = contribution ch anns.
+Proof.
+  intros ch t anns H. induction H as [|e a t anns (H1&H2&H3&H4) HF IH]; simpl; [reflexivity|].
+  rewrite IH. f_equal. unfold img. rewrite H2. destruct (a_ok a); [|reflexivity].
+  rewrite H1, (H4 eq_refl). reflexivity.
+Qed.
+
+Definition regs_step (r : list N) (o : op) : list N :=
+  match o with
+  | Register c => if existsb (N.eqb c) r then r else r ++ [c]
+  | Unregister c => filter (fun k => negb (k =? c)) r
+  | _ => r end.
+Definition chain_step (c : policy) (o : op) : policy := match o with ReplaceChain c' => c' | _ => c end.
+
+Lemma spec_regs_fold : forall ops, spec_regs ops = fold_left regs_step ops [].
+Proof. reflexivity. Qed.
+Lemma final_policy_fold : forall pol ops, final_policy pol ops = fold_left chain_step ops pol.
+Proof. reflexivity. Qed.
+
+Lemma run_facts : forall a0 ops s sp, Base s -> Sim a0 s sp ->
+  let s' := fold_left step ops s in
+  Base s' /\ Sim a0 s' (fold_left (spec_step a0) ops sp) /\
+  regs s' = fold_left regs_step ops (regs s) /\ chain s' = fold_left chain_step ops (chain s).
+Proof.
+  induction ops as [|o ops IH]; intros s sp HB HS; simpl; [auto|].
+  destruct (step_base o s HB) as (HB'&_&_&_&_&Ech&Erg).
+  destruct (IH (step s o) (spec_step a0 sp o) HB' (Sim_step a0 o s sp HB HS)) as (G1&G2&G3&G4).
+  split; [exact G1|]. split; [exact G2|]. split.
+  - rewrite G3, Erg. destruct o; reflexivity.
+  - rewrite G4, Ech. destruct o; reflexivity.
+Qed.
+
+Lemma Sim_init : forall a c, Sim a (init a c) (mkSS [] [] []).
+Proof. intros. constructor; simpl; [reflexivity | constructor | apply rc_rel_nil | apply rc_rel_nil]. Qed.
+
+(* ------------------------------------------------------------------ C05 *)
+Theorem mirror : forall (a : sattrs) (pol : policy) (ops : list op),
+  reg_once [] ops = true -> replace_ok pol ops ->
+  forall c,
+    (In c (spec_regs ops) ->
+       Permutation (map ekey (ct_get c (ctabs (run a pol ops))))
+                   (map ekey (contribution (final_policy pol ops) (s_anns (spec_run a ops))))) /\
+    (~ In c (spec_regs ops) -> ct_get c (ctabs (run a pol ops)) = []).
+Proof.
+  intros a pol ops Hreg Hrep c. unfold run.
+  pose proof (Inv_steps ops (init a pol) (Inv_init a pol) Hreg Hrep) as [HK HR HC HU].
+  destruct (run_facts a ops (init a pol) (mkSS [] [] []) (Base_init a pol) (Sim_init a pol)) as (_&[_ Htab _ _]&G3&G4).
+  simpl in G3, G4. rewrite spec_regs_fold, final_policy_fold, <- G3, <- G4. unfold spec_run.
+  rewrite <- (contrib_contribution _ _ _ Htab). split; [apply HC | apply HU].
+Qed.
+
+Lemma fixed_policy_replace_ok : forall ops pol, fixed_policy ops -> replace_ok pol ops.
+Proof.
+  induction ops as [|o ops IH]; intros pol H; simpl; [exact I|].
+  assert (H' : fixed_policy ops) by (intros x Hx; apply H; right; exact Hx).
+  destruct o; try (apply IH, H'). exfalso. apply (H (ReplaceChain c)). left. reflexivity.
+Qed.
+
+Lemma fixed_policy_final : forall ops pol, fixed_policy ops -> final_policy pol ops = pol.
+Proof.
+  induction ops as [|o ops IH]; intros pol H; simpl; [reflexivity|].
+  assert (H' : fixed_policy ops) by (intros x Hx; apply H; right; exact Hx).
+  destruct o; try (apply IH, H'). exfalso. apply (H (ReplaceChain c)). left. reflexivity.
+Qed.
+
+Theorem mirror_fixed : forall (a : sattrs) (pol : policy) (ops : list op),
+  fixed_policy ops -> reg_once [] ops = true ->
+  forall c,
+    (In c (spec_regs ops) ->
+       Permutation (map ekey (ct_get c (ctabs (run a pol ops))))
+                   (map ekey (contribution pol (s_anns (spec_run a ops))))) /\
+    (~ In c (spec_regs ops) -> ct_get c (ctabs (run a pol ops)) = []).
+Proof.
+  intros a pol ops Hf Hreg c.
+  rewrite <- (fixed_policy_final ops pol Hf) at 2. apply mirror; [exact Hreg | apply fixed_policy_replace_ok, Hf].
+Qed.
+
+(* ------------------------------------------------------------------ corollaries: unregister / flush / replacement *)
+Lemma run_snoc : forall a pol ops o, run a pol (ops ++ [o]) = step (run a pol ops) o.
+Proof. intros. unfold run. rewrite fold_left_app. reflexivity. Qed.
+
+Lemma reg_once_snoc_other : forall ops r o,
+  match o with Register _ => False | _ => True end ->
+  reg_once r (ops ++ [o]) = reg_once r ops.
+Proof.
+  induction ops as [|x ops IH]; intros r o Ho; simpl.
+  - destruct o; try reflexivity. contradiction.
+  - destruct x; try apply IH; try exact Ho. rewrite IH by exact Ho. reflexivity.
+Qed.
+
+Lemma replace_ok_snoc_other : forall ops pol o,
+  match o with ReplaceChain _ => False | _ => True end ->
+  (replace_ok pol (ops ++ [o]) <-> replace_ok pol ops).
+Proof.
+  induction ops as [|x ops IH]; intros pol o Ho; simpl.
+  - destruct o; try tauto.
+  - destruct x; try apply IH; try exact Ho. rewrite IH by exact Ho. tauto.
+Qed.
+
+Lemma spec_regs_snoc : forall ops o, spec_regs (ops ++ [o]) = regs_step (spec_regs ops) o.
+Proof. intros. rewrite !spec_regs_fold, fold_left_app. reflexivity. Qed.
+
+Lemma single_fold_log : forall (mk : pfx -> path -> event) (f : pfx -> path -> ctable -> ctable) c l s,
+  log (fold_left (fun acc e =>
+              if negb (hid (snd e) =? 0) then acc else
+              match chain acc (fst e) (snd e) with
+              | None => acc
+              | Some q' => call c (mk (fst e) q') (f (fst e) q') acc
+              end) l s)
+  = rev (map (fun x => mk (fst x) (snd x)) (contrib (chain s) l)) ++ log s.
+Proof.
+  induction l as [|e l IH]; intro s; simpl; [reflexivity|].
+  unfold img. destruct (hid (snd e) =? 0) eqn:Eh; simpl; [|apply IH].
+  destruct (chain s (fst e) (snd e)) as [q'|] eqn:Ec; [|apply IH].
+  rewrite IH. simpl. rewrite <- app_assoc. reflexivity.
+Qed.
+
+Theorem unregister_exact : forall (a : sattrs) (pol : policy) (ops : list op) (c : N),
+  reg_once [] ops = true -> replace_ok pol ops -> In c (spec_regs ops) ->
+  let s := run a pol ops in
+  let s' := step s (Unregister c) in
+  let contributed := contribution (final_policy pol ops) (s_anns (spec_run a ops)) in
+  ct_get c (ctabs s') = [] /\
+  log s' = rev (map (fun x => EvRemove c (fst x) (snd x)) contributed) ++ log s /\
+  tab s' = tab s /\
+  (forall c', c' <> c -> ct_get c' (ctabs s') = ct_get c' (ctabs s)).
+Proof.
+  intros a pol ops c Hreg Hrep Hc s s' contributed.
+  assert (Hreg' : reg_once [] (ops ++ [Unregister c]) = true) by (rewrite reg_once_snoc_other; [exact Hreg | exact I]).
+  assert (Hrep' : replace_ok pol (ops ++ [Unregister c])) by (apply replace_ok_snoc_other; [exact I | exact Hrep]).
+  destruct (mirror a pol (ops ++ [Unregister c]) Hreg' Hrep' c) as [_ HU].
+  rewrite run_snoc in HU. fold s in HU. split.
+  - apply HU. rewrite spec_regs_snoc. simpl. intro Hin. apply filter_In in Hin. destruct Hin as [_ Hne].
+    rewrite N.eqb_refl in Hne. discriminate.
+  - unfold s, run in *.
+    destruct (run_facts a ops (init a pol) (mkSS [] [] []) (Base_init a pol) (Sim_init a pol)) as (_&[_ Htab _ _]&G3&G4).
+    simpl in G3, G4. set (s0 := fold_left step ops (init a pol)) in *.
+    assert (Hm : mem c (regs s0) = true) by (apply mem_In; rewrite G3, <- spec_regs_fold; exact Hc).
+    destruct (unregister_spec c s0 Hm) as (_&_&E3&_&_&_&_&E8).
+    split; [|split; [exact E3 | exact E8]].
+    unfold s'. simpl. unfold unregister. fold (mem c (regs s0)). rewrite Hm. cbn [negb].
+    rewrite single_fold_log. simpl. unfold contributed, spec_run.
+    rewrite <- (contrib_contribution _ _ _ Htab), final_policy_fold, <- G4. reflexivity.
+Qed.
+
+Theorem flush_exact : forall (a : sattrs) (pol : policy) (ops : list op),
+  reg_once [] ops = true -> replace_ok pol ops ->
+  let s' := run a pol (ops ++ [Flush]) in
+  tab s' = [] /\ forall c, ct_get c (ctabs s') = [].
+Proof.
+  intros a pol ops Hreg Hrep s'.
+  assert (Hreg' : reg_once [] (ops ++ [Flush]) = true) by (rewrite reg_once_snoc_other; [exact Hreg | exact I]).
+  assert (Hrep' : replace_ok pol (ops ++ [Flush])) by (apply replace_ok_snoc_other; [exact I | exact Hrep]).
+  assert (Hanns : s_anns (spec_run a (ops ++ [Flush])) = []).
+  { unfold spec_run. rewrite fold_left_app. reflexivity. }
+  split.
+  - unfold s', run.
+    destruct (run_facts a (ops ++ [Flush]) (init a pol) (mkSS [] [] []) (Base_init a pol) (Sim_init a pol)) as (_&[_ Htab _ _]&_).
+    fold (spec_run a (ops ++ [Flush])) in Htab. rewrite Hanns in Htab. inversion Htab. reflexivity.
+  - intro c. destruct (mirror a pol (ops ++ [Flush]) Hreg' Hrep' c) as [HC HU].
+    destruct (in_dec N.eq_dec c (spec_regs (ops ++ [Flush]))) as [Hin|Hnin]; [|apply HU, Hnin].
+    specialize (HC Hin). rewrite Hanns in HC. simpl in HC. apply keys_nil. exact HC.
+Qed.
+
+(* a new announcement replaces exactly the previous one of its slot *)
+Theorem announce_replaces : forall (a : sattrs) (pol : policy) (ops : list op) (p : pfx) (q : path),
+  let s := run a pol ops in
+  let s' := step s (Announce p q) in
+  let slot := sel (addpath_rx a) p (pid q) in
+  filter slot (tab s') = [(p, stored_form s q)] /\
+  filter (fun e => negb (slot e)) (tab s') = filter (fun e => negb (slot e)) (tab s).
+Proof.
+  intros a pol ops p q s s' slot.
+  destruct (run_facts a ops (init a pol) (mkSS [] [] []) (Base_init a pol) (Sim_init a pol)) as (HB&[Hsa _ _ _]&_).
+  fold (run a pol ops) in HB, Hsa. fold s in HB, Hsa.
+  destruct (step_base (Announce p q) s HB) as (_&_&E2&_).
+  unfold s'. rewrite E2. simpl. unfold apx. rewrite Hsa. fold slot.
+  assert (Hs : slot (p, stored_form s q) = true).
+  { unfold slot. apply sel_tkey. unfold tkey. cbn [fst snd]. rewrite stored_form_pid. reflexivity. }
+  rewrite !filter_app. simpl. rewrite Hs. simpl. rewrite !filter_filter. split.
+  - assert (Hn : forall l, filter (fun x => negb (slot x) && slot x) l = []).
+    { induction l as [|x l IH]; simpl; [reflexivity|]. destruct (slot x); simpl; exact IH. }
+    rewrite Hn. reflexivity.
+  - rewrite app_nil_r. apply filter_ext. intro x. destruct (slot x); reflexivity.
+Qed.
+
+Lemma announce_replaces' : forall (a : sattrs) (pol : policy) (ops : list op) (p : pfx) (q : path),
+  let s := run a pol ops in
+  let s' := step s (Announce p q) in
+  let slot := fun e : pfx * path => (fst e =? p) && (negb (addpath_rx a) || (pid (snd e) =? pid q)) in
+  (exists qs, filter slot (tab s') = [(p, qs)] /\ pid qs = pid q) /\
+  filter (fun e => negb (slot e)) (tab s') = filter (fun e => negb (slot e)) (tab s).
+Proof.
+  intros a pol ops p q s s' slot. destruct (announce_replaces a pol ops p q) as [H1 H2].
+  split; [|exact H2]. exists (stored_form s q). split; [exact H1 | apply stored_form_pid].
+Qed.
